@@ -4,12 +4,36 @@ package main
 // subject connection in a given buffer condition ends for a given cause; the
 // harness observes the teardown-finished notification, the will (through a
 // witness), the liveness of bystanders, Server.Close and the goroutines left.
+//
+//	life run <cond> <cause> [<order>]
+//
+// cond   idle      nothing buffered
+//        outfull   the subject has stopped reading and a third client floods its subscription: own outgoing
+//                  ring full, the THIRD party's processor is parked in it
+//        infull    the subject floods a third client that has stopped reading: the subject's processor is parked
+//                  in the third party's outgoing ring, the subject's incoming ring is full
+//        selffull  the subject has stopped reading and floods its own subscription: its processor is parked in
+//                  its OWN outgoing ring, its incoming ring is full
+//        cross     subject and third have both stopped reading and flood each other: each processor is parked
+//                  in the other's outgoing ring
+//        chunked   the subject sends the first 9000 bytes of a 16 000 byte PUBLISH in 1000-byte writes (16 KiB
+//                  ring: the receiver waits for 8 KiB of free space, the processor for the rest of the packet)
+// cause  disconnect | close | protoerr | oversize | keepalive | srvclose (Server.Close while everybody is connected)
+// order  s (default)  the subject ends first; a third party that holds it up is closed afterwards
+//        t            the third party is closed (and torn down) first, then the subject ends;
+//                     for srvclose: the third party connected before the subject (Server.Close stops it first)
+//
+// Output: [held-up-by-third] [held-up-by-self] torn=<0|1> will=<0|1|-> witness-alive=<0|1|-> srvclose=<0|1|panic> goroutines-left=<n>
+// (torn: the teardown-finished notification of the subject - and of a third party that ended on the way - arrived;
+// "-": not observable because Server.Close is stopping the witness too)
 
 import (
 	"bufio"
 	"fmt"
 	"math/rand"
+	"os"
 	"runtime"
+	"runtime/debug"
 	"strings"
 	"time"
 )
@@ -19,9 +43,15 @@ type lifeCore struct{}
 func init() {
 	cores["life"] = func() core { brokerInit(); return &lifeCore{} }
 	gens["life"] = genLife
+	gens["life-pairs"] = genLifePairs
+	gens["life-srv"] = genLifeSrv
+	gens["life-chunked"] = genLifeChunked
 }
 
-const lifeWait = 6 * time.Second
+const (
+	lifeWait = 5 * time.Second
+	heldWait = 2500 * time.Millisecond
+)
 
 func libGoroutines() int {
 	buf := make([]byte, 1<<20)
@@ -35,7 +65,7 @@ func libGoroutines() int {
 	return cnt
 }
 
-// endConn ends connection c for the given cause; returns false if the cause could not be applied.
+// endConn ends connection c for the given cause.
 func endConn(c *rawClient, cause string) {
 	// the bytes that end the connection may have to wait behind a full incoming ring: no short deadline
 	wr := func(b []byte) {
@@ -58,6 +88,21 @@ func endConn(c *rawClient, cause string) {
 	}
 }
 
+// lifeDump prints the library goroutines to stderr (LIFE_DUMP=1): where a wedged teardown is parked.
+func lifeDump() {
+	if os.Getenv("LIFE_DUMP") == "" {
+		return
+	}
+	buf := make([]byte, 1<<20)
+	n := runtime.Stack(buf, true)
+	for _, g := range strings.Split(string(buf[:n]), "\n\n") {
+		if strings.Contains(g, "go-mqtt/service.") {
+			fmt.Fprintln(os.Stderr, g)
+			fmt.Fprintln(os.Stderr)
+		}
+	}
+}
+
 func stoppedWithin(c *rawClient, d time.Duration) bool {
 	select {
 	case <-c.stopped:
@@ -67,92 +112,183 @@ func stoppedWithin(c *rawClient, d time.Duration) bool {
 	}
 }
 
-func (lifeCore) handle(ws []string) string {
-	switch ws[0] {
-	case "reset":
-		return "reset"
-	case "run":
-		cond, cause := ws[1], ws[2]
-		before := libGoroutines()
-		svr := newServer(16384)
-		b := &brokerCore{clients: map[int]*rawClient{}}
-		wit, ok := rawConnect(svr, 1, simpleConnect("witness", 300, nil))
-		if !ok {
-			return "witness-refused"
-		}
-		wit.write(wSubscribe(1, [][]byte{[]byte("will/#")}, []int{0}))
-		wit.waitUntil(func() bool { return len(wit.items) > 0 }, brokerWait)
-		wit.take()
-		ka := 300
-		if cause == "keepalive" {
-			ka = 1
-		}
-		subj, ok := rawConnect(svr, 2, simpleConnect("subject", ka, &wWill{topic: []byte("will/subject"), payload: []byte("gone")}))
-		if !ok {
-			return "subject-refused"
-		}
-		var third *rawClient
-		res := []string{}
-		switch cond {
-		case "idle":
-		case "outfull":
-			// the subject subscribes, stops reading, and a third client floods it until its outgoing ring is full
-			subj.write(wSubscribe(1, [][]byte{[]byte("flood")}, []int{0}))
-			subj.waitUntil(func() bool { return len(subj.items) > 0 }, brokerWait)
-			subj.take()
-			subj.setPaused(true)
-			third, _ = rawConnect(svr, 3, simpleConnect("third", 300, nil))
-			pl := make([]byte, 1000)
-			go func() {
-				for i := 0; i < 60; i++ {
-					if third.write(wPub{topic: []byte("flood"), payload: pl}.encode()) != nil {
-						return
-					}
-				}
-			}()
-			time.Sleep(300 * time.Millisecond)
-		case "infull":
-			// the subject publishes to a third client that has stopped reading: the subject's processor
-			// blocks on the third party's full outgoing ring and the subject's incoming ring fills up
-			third, _ = rawConnect(svr, 3, simpleConnect("third", 300, nil))
-			third.write(wSubscribe(1, [][]byte{[]byte("flood")}, []int{0}))
-			third.waitUntil(func() bool { return len(third.items) > 0 }, brokerWait)
-			third.take()
-			third.setPaused(true)
-			pl := make([]byte, 1000)
-			floodDone := make(chan struct{})
-			go func() {
-				defer close(floodDone)
-				for i := 0; i < 80; i++ {
-					subj.conn.SetWriteDeadline(time.Now().Add(60 * time.Second))
-					if _, err := subj.conn.Write(wPub{topic: []byte("flood"), payload: pl}.encode()); err != nil {
-						return
-					}
-				}
-			}()
-			time.Sleep(300 * time.Millisecond)
-			if cause != "close" && cause != "keepalive" {
-				// the ending bytes follow the flood on the same stream
-				queued := cause
-				go func() { <-floodDone; endConn(subj, queued) }()
-				cause = "(queued)"
+// flood writes n PUBLISH packets of 1000 payload bytes on c (raw writes, long deadline); done is closed at the end.
+func flood(c *rawClient, topic string, n int) chan struct{} {
+	done := make(chan struct{})
+	pl := make([]byte, 1000)
+	pkt := wPub{topic: []byte(topic), payload: pl}.encode()
+	go func() {
+		defer close(done)
+		for i := 0; i < n; i++ {
+			c.conn.SetWriteDeadline(time.Now().Add(60 * time.Second))
+			if _, err := c.conn.Write(pkt); err != nil {
+				return
 			}
 		}
+	}()
+	return done
+}
+
+func subscribeAndWait(c *rawClient, topic string) {
+	c.write(wSubscribe(1, [][]byte{[]byte(topic)}, []int{0}))
+	c.waitUntil(func() bool { return len(c.items) > 0 }, brokerWait)
+	c.take()
+}
+
+func lifeRun(cond, cause, order string) string {
+	before := libGoroutines()
+	svr := newServer(16384)
+	b := &brokerCore{clients: map[int]*rawClient{}}
+	wit, ok := rawConnect(svr, 1, simpleConnect("witness", 300, nil))
+	if !ok {
+		return "witness-refused"
+	}
+	subscribeAndWait(wit, "will/#")
+	ka := 300
+	if cause == "keepalive" {
+		ka = 1
+	}
+	needThird := cond == "outfull" || cond == "infull" || cond == "cross"
+	var subj, third *rawClient
+	connectSubj := func() bool {
+		subj, ok = rawConnect(svr, 2, simpleConnect("subject", ka, &wWill{topic: []byte("will/subject"), payload: []byte("gone")}))
+		return ok
+	}
+	connectThird := func() bool {
+		if !needThird {
+			return true
+		}
+		third, ok = rawConnect(svr, 3, simpleConnect("third", 300, nil))
+		return ok
+	}
+	if cause == "srvclose" && order == "t" {
+		if !connectThird() || !connectSubj() {
+			return "refused"
+		}
+	} else {
+		if !connectSubj() || !connectThird() {
+			return "refused"
+		}
+	}
+	res := []string{}
+	var floodDone chan struct{}
+	switch cond {
+	case "idle":
+	case "outfull":
+		subscribeAndWait(subj, "toS")
+		subj.setPaused(true)
+		flood(third, "toS", 60)
+	case "infull":
+		subscribeAndWait(third, "toT")
+		third.setPaused(true)
+		floodDone = flood(subj, "toT", 80)
+	case "selffull":
+		subscribeAndWait(subj, "toS")
+		subj.setPaused(true)
+		floodDone = flood(subj, "toS", 80)
+	case "cross":
+		subscribeAndWait(subj, "toS")
+		subscribeAndWait(third, "toT")
+		subj.setPaused(true)
+		third.setPaused(true)
+		floodDone = flood(subj, "toT", 80)
+		flood(third, "toS", 80)
+	case "chunked":
+		pkt := wPub{topic: []byte("big"), payload: make([]byte, 16000-8)}.encode()
+		floodDone = make(chan struct{})
+		go func() {
+			defer close(floodDone)
+			for off := 0; off < len(pkt); off += 1000 {
+				end := off + 1000
+				if end > len(pkt) {
+					end = len(pkt)
+				}
+				subj.conn.SetWriteDeadline(time.Now().Add(60 * time.Second))
+				if _, err := subj.conn.Write(pkt[off:end]); err != nil {
+					return
+				}
+			}
+		}()
+	default:
+		return "bad-op"
+	}
+	// let the rings fill up; also: handleConnection registers a connection with the server only after
+	// the CONNACK went out, and a Server.Close that copies the list before that never stops it
+	if cond != "idle" {
+		time.Sleep(300 * time.Millisecond)
+	} else {
+		time.Sleep(100 * time.Millisecond)
+	}
+	if order == "t" && third != nil && cause != "srvclose" {
+		// the third party ends first (abruptly); its own teardown may have to wait for the subject
+		third.conn.Close()
+		third.dead = true
+		if cond == "infull" {
+			// nothing holds the third party up here: it goes away completely before the subject ends
+			stoppedWithin(third, lifeWait)
+		}
+	}
+	srvClosed := make(chan struct{})
+	srvPanic := false
+	closeServer := func() {
+		go func() {
+			defer func() {
+				if r := recover(); r != nil {
+					fmt.Fprintf(os.Stderr, "harness: Server.Close panicked: %v\n%s\n", r, debug.Stack())
+					srvPanic = true
+				}
+				close(srvClosed)
+			}()
+			svr.Close()
+		}()
+	}
+	srvCloseStarted := false
+	switch cause {
+	case "srvclose":
+		closeServer()
+		srvCloseStarted = true
+	case "close", "keepalive":
 		endConn(subj, cause)
-		budget := lifeWait
-		if cause == "keepalive" {
-			budget += 2 * time.Second
+	default:
+		if floodDone != nil {
+			// the ending bytes follow the flood on the same stream
+			queued := cause
+			go func() { <-floodDone; endConn(subj, queued) }()
+		} else {
+			endConn(subj, cause)
 		}
-		torn := stoppedWithin(subj, budget)
-		if !torn && cond == "infull" {
-			// the property's exemption: a still-open connection that has stopped reading holds up a
-			// delivery from the subject; once that one ends, the subject's teardown has to complete
-			res = append(res, "held-up-by-third")
-			third.conn.Close()
-			torn = stoppedWithin(subj, lifeWait) && stoppedWithin(third, lifeWait)
-		}
-		res = append(res, "torn="+b01(torn))
-		// the will reaches the witness iff the end was not a DISCONNECT
+	}
+	// a teardown that has not finished after heldWait is taken to be held up (or wedged)
+	budget := heldWait
+	if cause == "keepalive" {
+		budget += 2 * time.Second
+	}
+	torn := stoppedWithin(subj, budget)
+	if !torn && third != nil && !third.dead {
+		// the property's exemption: a still-open connection that has stopped reading holds up a
+		// delivery from the subject; once that one ends, the subject's teardown has to complete
+		res = append(res, "held-up-by-third")
+		third.conn.Close()
+		third.dead = true
+		torn = stoppedWithin(subj, lifeWait)
+	}
+	if !torn && cond == "selffull" {
+		// the same exemption with the subject in both roles: its processor is parked in its own outgoing
+		// ring, which its own client (still connected, not reading) does not drain
+		res = append(res, "held-up-by-self")
+		subj.conn.Close()
+		torn = stoppedWithin(subj, lifeWait)
+	}
+	if third != nil && third.dead {
+		// a third party that ended on the way has to be torn down as well
+		torn = stoppedWithin(third, lifeWait) && torn
+	}
+	res = append(res, "torn="+b01(torn))
+	// the will reaches the witness iff the end was not a DISCONNECT (not observable during Server.Close:
+	// the witness is being stopped too)
+	if srvCloseStarted {
+		res = append(res, "will=-")
+	} else {
 		will := wit.waitUntil(func() bool {
 			for _, it := range wit.items {
 				if strings.HasPrefix(it, "PUB ") {
@@ -162,9 +298,15 @@ func (lifeCore) handle(ws []string) string {
 			return false
 		}, 1500*time.Millisecond)
 		res = append(res, "will="+b01(will))
-		// bystander alive
+	}
+	// bystander alive (not asked once the server is being closed)
+	if srvCloseStarted {
+		res = append(res, "witness-alive=-")
+	} else {
 		res = append(res, "witness-alive="+b01(b.barrier(wit)))
-		// everything ends; Server.Close returns; no library goroutine is left
+	}
+	// everything ends; Server.Close returns; no library goroutine is left
+	if !srvCloseStarted {
 		if third != nil && !third.dead {
 			third.setPaused(false)
 			third.conn.Close()
@@ -172,31 +314,60 @@ func (lifeCore) handle(ws []string) string {
 		}
 		wit.conn.Close()
 		stoppedWithin(wit, lifeWait)
-		closed := make(chan struct{})
-		go func() { defer func() { recover(); close(closed) }(); svr.Close() }()
-		select {
-		case <-closed:
+		closeServer()
+	}
+	select {
+	case <-srvClosed:
+		if srvPanic {
+			res = append(res, "srvclose=panic")
+		} else {
 			res = append(res, "srvclose=1")
-		case <-time.After(lifeWait):
-			res = append(res, "srvclose=0")
 		}
-		left := 0
-		for i := 0; i < 40; i++ {
-			left = libGoroutines() - before
-			if left <= 0 {
-				break
-			}
-			time.Sleep(50 * time.Millisecond)
+	case <-time.After(lifeWait):
+		res = append(res, "srvclose=0")
+		lifeDump()
+	}
+	// clients go away (no effect on a broker that has torn everything down)
+	subj.conn.Close()
+	if third != nil {
+		third.conn.Close()
+	}
+	wit.conn.Close()
+	left := 0
+	for i := 0; i < 40; i++ {
+		left = libGoroutines() - before
+		if left <= 0 {
+			break
 		}
-		if left < 0 {
-			left = 0
+		time.Sleep(50 * time.Millisecond)
+	}
+	if left < 0 {
+		left = 0
+	}
+	res = append(res, fmt.Sprintf("goroutines-left=%d", left))
+	return strings.Join(res, " ")
+}
+
+func (lifeCore) handle(ws []string) string {
+	switch ws[0] {
+	case "reset":
+		return "reset"
+	case "run":
+		if len(ws) < 3 {
+			return "bad-op"
 		}
-		res = append(res, fmt.Sprintf("goroutines-left=%d", left))
-		return strings.Join(res, " ")
+		order := "s"
+		if len(ws) > 3 {
+			order = ws[3]
+		}
+		return lifeRun(ws[1], ws[2], order)
 	}
 	return "bad-op"
 }
 
+// genLife: the cause x condition matrix of the property's quantifier (idle, own outgoing ring full, incoming ring
+// full behind a third party's full outgoing ring) with the subject ending first; quick = the first n lines
+// (keep-alive only on the idle connection), thorough = all 15, then random picks.
 func genLife(seed int64, n int, tier string, w *bufio.Writer) {
 	r := rand.New(rand.NewSource(seed))
 	fmt.Fprintln(w, "life reset")
@@ -211,6 +382,9 @@ func genLife(seed int64, n int, tier string, w *bufio.Writer) {
 			if tier != "thorough" && cs == "keepalive" && cd != "idle" {
 				continue
 			}
+			if tier != "thorough" && cd == "infull" && cs != "close" && cs != "disconnect" {
+				continue
+			}
 			fmt.Fprintf(w, "life run %s %s\n", cd, cs)
 			k++
 		}
@@ -218,4 +392,51 @@ func genLife(seed int64, n int, tier string, w *bufio.Writer) {
 	for ; k < n; k++ {
 		fmt.Fprintf(w, "life run %s %s\n", pick(r, conds), pick(r, causes))
 	}
+}
+
+type lifeScn struct{ cond, cause, order string }
+
+func emitScns(w *bufio.Writer, r *rand.Rand, n int, fixed []lifeScn, pool []lifeScn) {
+	fmt.Fprintln(w, "life reset")
+	for i := 0; i < n; i++ {
+		var s lifeScn
+		if i < len(fixed) {
+			s = fixed[i]
+		} else if len(pool) > 0 {
+			s = pick(r, pool)
+		} else {
+			return
+		}
+		fmt.Fprintf(w, "life run %s %s %s\n", s.cond, s.cause, s.order)
+	}
+}
+
+// genLifePairs: cross-blocked publisher/subscriber pairs, a connection whose processor is parked in its own
+// outgoing ring, and both orders in which the two involved connections end.
+func genLifePairs(seed int64, n int, tier string, w *bufio.Writer) {
+	all := []lifeScn{
+		{"cross", "close", "s"}, {"cross", "close", "t"}, {"selffull", "close", "s"}, {"infull", "close", "t"},
+		{"selffull", "keepalive", "s"}, {"outfull", "close", "t"}, {"infull", "disconnect", "t"}, {"cross", "keepalive", "s"},
+		{"cross", "keepalive", "t"}, {"outfull", "disconnect", "t"}, {"outfull", "keepalive", "t"}, {"infull", "protoerr", "t"},
+		{"infull", "oversize", "t"}, {"infull", "keepalive", "t"}, {"outfull", "protoerr", "t"}, {"outfull", "oversize", "t"},
+	}
+	emitScns(w, rand.New(rand.NewSource(seed)), n, all, all)
+}
+
+// genLifeSrv: Server.Close with the connections in each condition, the subject registered before / after the
+// third party (Close stops the connections in registration order).
+func genLifeSrv(seed int64, n int, tier string, w *bufio.Writer) {
+	all := []lifeScn{
+		{"infull", "srvclose", "s"}, {"cross", "srvclose", "s"}, {"idle", "srvclose", "s"}, {"outfull", "srvclose", "s"},
+		{"infull", "srvclose", "t"}, {"selffull", "srvclose", "s"}, {"chunked", "srvclose", "s"}, {"cross", "srvclose", "t"},
+		{"outfull", "srvclose", "t"},
+	}
+	emitScns(w, rand.New(rand.NewSource(seed)), n, all, all)
+}
+
+// genLifeChunked: defect F3 (a packet longer than ring size - read block arriving in pieces); the wedging
+// causes are the witness of the open finding, Server.Close still gets the connection down.
+func genLifeChunked(seed int64, n int, tier string, w *bufio.Writer) {
+	all := []lifeScn{{"chunked", "srvclose", "s"}, {"chunked", "close", "s"}, {"chunked", "keepalive", "s"}}
+	emitScns(w, rand.New(rand.NewSource(seed)), n, all, nil)
 }
